@@ -315,7 +315,11 @@ theorem popReply_gone {o : Nat} {s : Sess} (h : Gone o s) (kind : Kind) (id : Re
 theorem onEstablished_gone {o : Nat} {s : Sess} (h : Gone o s) (beh : List HAct) (m : InMsg) :
     GoneRel o s (onEstablished s beh m).2 (onEstablished s beh m).1 := by
   cases m with
-  | goodbye => exact (goneLiftX o).goodbye h _
+  | goodbye =>
+    simp only [onEstablished]
+    split
+    · exact out_gone h (by simp [isInvoke])
+    · exact (goneLiftX o).goodbye h _
   | event sub pub p =>
     simp only [onEstablished]
     split
